@@ -219,6 +219,7 @@ def run(report, prog, tier):
     # conditions of this property too (reported under their C05 rule ids)
     from . import c05
     c05.rule_window(report, prog)
+    c05.rule_recv_buffer(report, prog)
     c05.rule_miu(report, prog)
     c05.rule_miu_writes(report, prog)
     c05.rule_sequence(report, prog)
